@@ -1,8 +1,10 @@
 package netx
 
 import (
+	"fmt"
 	"io"
 	"net"
+	"os"
 	"sync"
 	"sync/atomic"
 	"time"
@@ -60,9 +62,25 @@ func (p *pconn) kill(reset bool) {
 	}
 }
 
+var portSeq atomic.Uint32
+
 // NewProxy listens on a loopback port and forwards to target.
 func NewProxy(target string) (*Proxy, error) {
-	ln, err := net.Listen("tcp", "127.0.0.1:0")
+	// The port is taken from below the kernel's ephemeral range (32768..60999): a proxy that closes its
+	// listener for an outage and listens again on the same port must not find the port taken as the
+	// source port of some other outgoing connection in the meantime.
+	var ln net.Listener
+	var err error
+	for i := 0; i < 64; i++ {
+		port := 10000 + int(portSeq.Add(7919)+uint32(os.Getpid())*2654435761>>8)%22000
+		ln, err = net.Listen("tcp", fmt.Sprintf("127.0.0.1:%d", port))
+		if err == nil {
+			break
+		}
+	}
+	if err != nil {
+		ln, err = net.Listen("tcp", "127.0.0.1:0")
+	}
 	if err != nil {
 		return nil, err
 	}
